@@ -1,21 +1,177 @@
-//! Monitor for property C20 (see /verif/DESIGN.md §6).
+//! Monitor for property C20 (see /verif/DESIGN.md §6): core containers and identifiers.
+//!
+//! Four independent parts, each driving the real code at its public API and comparing with a
+//! naive model from `vmodels::containers`:
+//!   gm.rs     GroupingHashMap / GroupingVec   vs stack of snapshots (+ iter_all -> FromIterator)
+//!   intern.rs Interner                        vs "ordinal of first occurrence"
+//!   kmp.rs    substringsearch::Matcher        vs window comparison
+//!   tags.rs   command::Tag / StaticTag        uniqueness under real threads
+//! Miri and ThreadSanitizer runs of the tag code are separate stages (/verif/stages/C20.sh).
+
+pub mod gm;
+pub mod intern;
+pub mod kmp;
+pub mod tags;
+
 use vcore::*;
 
 pub struct M;
 pub static MONITOR: M = M;
 
+fn gm_len(tier: Tier) -> u32 {
+    tier.pick(7, 8) as u32
+}
+fn bfs_ops(tier: Tier) -> u8 {
+    tier.pick(12, 15) as u8
+}
+fn intern_len(tier: Tier) -> u32 {
+    tier.pick(7, 8) as u32
+}
+fn kmp_dims(tier: Tier) -> (u32, u32) {
+    (tier.pick(5, 6) as u32, tier.pick(12, 13) as u32)
+}
+
 impl Monitor for M {
     fn id(&self) -> &'static str {
         "C20"
     }
+
     fn rule(&self) -> String {
-        "not built yet".into()
+        "gm_exhaustive: case = 10^4 consecutive histories of fixed length L over the 10-letter alphabet \
+         {local,global}x{key 1,3}x{value 7,9}+begin+end (L=7 quick, 8 thorough), run on GroupingHashMap AND \
+         GroupingVec, compared with the stack-of-snapshots model after every operation (so all shorter \
+         histories are covered as prefixes), then iter_all -> model replay + real FromIterator, 6 further \
+         seed-chosen operations on (original, rebuilt, model) and a full unwind; a history is non-trivial \
+         when some end_group had a value to restore/delete or a global insert had a saved value to purge \
+         (distinct by construction). gm_bfs: distinct model states reachable within D operations (D=12 \
+         quick, 15 thorough) in BFS order; per state its shortest history followed by each of the 10 \
+         operations, same checks; distinct = packed state. gm_random: 60-400 operations over 16 keys out \
+         of 0..48, depth <= 12, a never-repeated value per write, rebuilds at random points (also of \
+         rebuilt containers); non-trivial = has a restoring end at depth >= 2, a purging global insert and \
+         a rebuild with hidden values; distinct = operation list. interner_exhaustive: all sequences of \
+         length L (7/8) over {\"\",a,b,ab,ba,aba} x 5 (hasher,key type) configurations with serde round \
+         trips; interner_random: pools of near-duplicate (prefix/suffix/concatenation, multi-byte) \
+         strings. kmp_exhaustive: every pattern of length <= P and text of length T over {a,b,c} \
+         (P,T = 5,12 quick; 6,13 thorough), answer compared after every element; non-trivial = text \
+         contains the pattern. kmp_random: periodic patterns up to 16, texts up to 300 assembled from \
+         pattern pieces. tags: T in {2,8,64} threads behind a barrier, N creations each, several \
+         rounds; distinct = ownership interleaving (thread ids in tag order)."
+            .into()
     }
+
     fn assumptions(&self) -> Vec<String> {
-        vec![]
+        vec![
+            "The reference models (vmodels::containers) are the naive reading of the contracts in the module docs; they are calibrated against the repository's own iter_all test table, doc examples and unit tests.".into(),
+            "Interner keys are treated as opaque (no numbering assumed); key types exercised: NonZeroU32 and texlang::token::CsName.".into(),
+            "Thread schedules are sampled by the OS scheduler (and by Miri's seeded scheduler in the miri stage), not enumerated: a clean run means no duplicate tag and no race on the interleavings observed.".into(),
+            "Open-group count is read through hook H1 (GroupingContainer::verif_num_groups, feature `verif`) and independently through end_group failing exactly when the model has no open group.".into(),
+            "Tag counter overflow after 2^32 creations in one process (checked_add unwrap) is outside the quantifier.".into(),
+        ]
     }
-    fn phases(&self, _tier: Tier) -> Vec<Phase> {
-        vec![]
+
+    fn phases(&self, tier: Tier) -> Vec<Phase> {
+        let (kp, kt) = kmp_dims(tier);
+        vec![
+            Phase::new("tags_sequential", 16).batch(1),
+            Phase::new("tags", tier.pick(48, 240)).batch(1),
+            Phase::new("gm_exhaustive", gm::exhaustive_cases(gm_len(tier)))
+                .batch(2)
+                .exhaustive(match tier {
+                    Tier::Quick => "all 10^7 histories of length 7 (hence all of length <= 7) over {local,global}x2 keys x2 values+begin+end, on both backing containers",
+                    Tier::Thorough => "all 10^8 histories of length 8 (hence all of length <= 8) over {local,global}x2 keys x2 values+begin+end, on both backing containers",
+                }),
+            Phase::new("gm_bfs", gm::bfs_cases(bfs_ops(tier)))
+                .batch(4)
+                .exhaustive(match tier {
+                    Tier::Quick => "all distinct model states reachable within 12 operations over the same alphabet, each followed by each of the 10 operations",
+                    Tier::Thorough => "all distinct model states reachable within 15 operations over the same alphabet, each followed by each of the 10 operations",
+                }),
+            Phase::new("gm_random", tier.pick(16_000, 600_000)).batch(32),
+            Phase::new("interner_exhaustive", intern::exhaustive_cases(intern_len(tier)))
+                .batch(2)
+                .exhaustive(match tier {
+                    Tier::Quick => "all 6^7 intern sequences of length 7 over {\"\",a,b,ab,ba,aba} under constant, len-mod-3 and RandomState hashers",
+                    Tier::Thorough => "all 6^8 intern sequences of length 8 over {\"\",a,b,ab,ba,aba} under constant, len-mod-3 and RandomState hashers",
+                }),
+            Phase::new("interner_random", tier.pick(6_000, 200_000)).batch(32),
+            Phase::new("kmp_exhaustive", kmp::exhaustive_cases(kp, kt))
+                .batch(64)
+                .exhaustive(match tier {
+                    Tier::Quick => "every pattern of length 1..5 x every text of length 12 (hence <= 12) over {a,b,c}",
+                    Tier::Thorough => "every pattern of length 1..6 x every text of length 13 (hence <= 13) over {a,b,c}",
+                }),
+            Phase::new("kmp_random", tier.pick(40_000, 2_000_000)).batch(64),
+        ]
     }
-    fn run_case(&self, _phase: &str, _idx: u64, _rng: &mut Rng, _obs: &mut Obs) {}
+
+    fn floors(&self, tier: Tier) -> Vec<(&'static str, u64)> {
+        let q = tier == Tier::Quick;
+        vec![
+            // grouping containers: every class of event the model distinguishes must have occurred
+            ("gm_exhaustive_histories", if q { 10_000_000 } else { 100_000_000 }),
+            ("gm_ops_checked_hashmap", 100_000_000),
+            ("gm_ops_checked_vec", 100_000_000),
+            ("gm_local_insert_new_key_in_group", 1_000_000),
+            ("gm_local_insert_depth_ge2", 1_000_000),
+            ("gm_global_insert_purging_saved_value", 1_000_000),
+            ("gm_end_restoring_value", 1_000_000),
+            ("gm_end_deleting_key", 1_000_000),
+            ("gm_end_restoring_depth_ge2", 100_000),
+            ("gm_end_without_group", 1_000_000),
+            ("gm_rebuilds", 20_000_000),
+            ("gm_rebuilds_with_hidden_values", 1_000_000),
+            ("gm_ops_on_rebuilt_shadow", 50_000_000),
+            ("gm_bfs_states", 1_000),
+            ("gm_bfs_states_beyond_exhaustive_length", 100),
+            ("gm_random_histories", if q { 16_000 } else { 600_000 }),
+            ("gm_ops_at_depth_12", 1_000),
+            // interner
+            ("intern_ops_constant", 1_000_000),
+            ("intern_ops_random", 1_000_000),
+            ("intern_repeat_found_behind_chain_head", 100_000),
+            ("intern_serde_roundtrips_nonempty", 100_000),
+            ("intern_new_after_serde", 10_000),
+            ("intern_repeat_after_serde", 10_000),
+            ("intern_empty_string_ops", 10_000),
+            // matcher
+            ("kmp_texts", 100_000_000),
+            ("kmp_overlapping_matches", 100_000),
+            ("kmp_matches_starting_inside_failed_partial_match", 100_000),
+            // tags
+            ("tags_created", if q { 1_000_000 } else { 20_000_000 }),
+            ("tags_rounds_64_threads", 10),
+            ("tags_rounds_truly_interleaved", 20),
+            ("tags_distinct_ownership_interleavings", 20),
+            ("tags_static_reads", 100),
+        ]
+    }
+
+    fn calibrate(&self, obs: &mut Obs) {
+        gm::calibrate(obs);
+        intern::calibrate(obs);
+        kmp::calibrate(obs);
+    }
+
+    fn run_case(&self, phase: &str, idx: u64, rng: &mut Rng, obs: &mut Obs) {
+        let tier = obs.tier;
+        match phase {
+            "tags_sequential" => tags::sequential_case(obs),
+            "tags" => tags::tags_case(idx, rng, obs),
+            "gm_exhaustive" => gm::exhaustive_case(gm_len(tier), idx, rng, obs),
+            "gm_bfs" => gm::bfs_case(bfs_ops(tier), idx, rng, obs),
+            "gm_random" => gm::random_case(rng, obs),
+            "interner_exhaustive" => intern::exhaustive_case(intern_len(tier), idx, rng, obs),
+            "interner_random" => intern::random_case(rng, obs),
+            "kmp_exhaustive" => {
+                let (p, t) = kmp_dims(tier);
+                kmp::exhaustive_case(p, t, idx, obs)
+            }
+            "kmp_random" => kmp::random_case(rng, obs),
+            other => obs.inconclusive(format!("unknown phase {other}")),
+        }
+    }
+
+    fn stack_bytes(&self) -> usize {
+        64 << 20
+    }
 }
